@@ -22,6 +22,7 @@
 import TypedpyModel.Lemmas.TrustedCtor
 import TypedpyModel.Lemmas.TrustedMap
 import TypedpyModel.Lemmas.TrustedExh
+import TypedpyModel.Lemmas.FastExh
 import TypedpyModel.Lemmas.Fast
 import TypedpyModel.Lemmas.FastMap
 import TypedpyModel.Lemmas.Mappers
@@ -892,6 +893,25 @@ theorem fast_mapper_full_example :
 theorem trusted_region_exhaustive (c : ClassOpts) (fields : List (String × FieldDecl)) (ds : List (String × PyVal)) :
     tsafeCls (.struct c fields ds) = true ∨ declDefects (.struct c fields ds) ≠ [] :=
   c10_region_exhaustive c fields ds
+
+/-- … and so does every document: inside `plainDoc` or at least one named issue of `docIssues` -/
+theorem trusted_partition_exhaustive (opts : DeserOpts) (c : ClassOpts) (fields : List (String × FieldDecl))
+    (ds : List (String × PyVal)) (d : PyVal) :
+    (tsafeCls (.struct c fields ds) = true ∧ plainDoc opts (.struct c fields ds) d = true)
+      ∨ declDefects (.struct c fields ds) ≠ [] ∨ docIssues opts (.struct c fields ds) d ≠ [] := by
+  rcases trusted_region_exhaustive c fields ds with h1 | h1
+  · rcases c10_doc_exhaustive opts (.struct c fields ds) d with h2 | h2
+    · exact Or.inl ⟨h1, h2⟩
+    · exact Or.inr (Or.inr h2)
+  · exact Or.inr (Or.inl h1)
+
+/-- the same for fast serialization at declaration level: inside `fsafeCls` or a named tag of `fdefD`
+    (instance-level causes — undeclared attributes, compact conditions, mapper cascade — are named by
+    `fastDefects` on top of these) -/
+theorem fast_region_exhaustive (NF : List String) (c : ClassOpts) (fields : List (String × FieldDecl))
+    (ds : List (String × PyVal)) :
+    fsafeCls NF (.struct c fields ds) = true ∨ fdefD NF (.struct c fields ds) ≠ [] :=
+  c10_fast_region_exhaustive NF c fields ds
 
 example : tsafeCls cxOptImmSet = false ∧ declDefects cxOptImmSet = ["unnormalised:optional-immutable-set"] := by decide
 
